@@ -29,15 +29,16 @@ warnings.filterwarnings("ignore", category=SyntaxWarning)
 
 PROP = "C25"
 
+# n_expr: trees replayed per format; n_sig: signature/nesting cases (all in the python build, every 2nd / 3rd in the c / plain builds)
 QUICK = {"cfgs": [("Signature_quick", 600)],
-         "n_expr": 2400, "n_sig": 260, "per_fn": 6, "fmts_expr": ["python"], "jobs": None}
-THOROUGH = {"cfgs": [("Signature_quick", 1200), ("Signature_t2", 3000), ("Signature_t3", 3000)],
-            "n_expr": 30000, "n_sig": 1500, "per_fn": 6, "fmts_expr": ["python", "c"], "jobs": None}
+         "n_expr": {"python": 1200}, "n_sig": 120, "per_fn": 10, "per_mod": 200, "jobs": None}
+THOROUGH = {"cfgs": [("Signature_t2", 3000), ("Signature_t3", 3000)],
+            "n_expr": {"python": 12000, "c": 3000}, "n_sig": 900, "per_fn": 10, "per_mod": 200, "jobs": None}
 
 SIG_DEFAULTS = ["100", "'s'", "None", "(1, 2)", "-1.5", "K"]
-HAZARD_TAGS = ["assoc", "chain", "cond", "negpow", "primary", "tuple1"]
+HAZARD_TAGS = ["assoc", "chain", "cond", "inlist", "negpow", "primary", "tuple1"]
 SCOPES = ["module", "class", "nested"]
-LAYOUTS = [["pk"] * 6, ["po", "po", "pk", "pk", "ko", "ko"], ["pk", "pk", "pk", "ko", "ko", "ko"]]
+LAYOUTS = [["pk"] * 10, ["po"] * 3 + ["pk"] * 3 + ["ko"] * 4, ["pk"] * 5 + ["ko"] * 5]
 
 
 # ---------------------------------------------------------------------------------------------
@@ -285,7 +286,22 @@ def check_embedded_default(case, text):
     return "embed-mismatch", {"text": text, "parses_as": ast.unparse(c_ast)}
 
 
+def bool_index(e):
+    """spec-side: some subscript index / slice bound is a bool-typed expression (not x, a comparison, True/False)"""
+    def is_bool(x):
+        return (x["k"] == "un" and x["v"][0] == "not") or x["k"] == "cmp" or (x["k"] == "atom" and x["v"][0] in ("True", "False"))
+    if e["k"] == "sub":
+        idx = e["c"][1]
+        parts = idx["c"] if idx["k"] == "slice" else [idx]
+        if any(is_bool(x) for x in parts):
+            return True
+    return any(bool_index(x) for x in e["c"])
+
+
 def expr_desc(case, check, fmt, scope):
+    if check == "value":
+        return {"part": "expr", "check": check, "fmt": fmt, "scope": scope, "bool_index": bool_index(case["ast"]),
+                "top": case["ast"]["k"]}
     return {"part": "expr", "check": check, "fmt": fmt, "scope": scope, "nested": scope == "nested", "tags": "+".join(case["tags"]),
             "predicted": ("unknown" if case["foldish"] else bool(case["hazard"])), "top": case["ast"]["k"]}
 
@@ -321,7 +337,9 @@ def run(tier, seed):
     ns = L.sym_namespace()
 
     # ---- model checking: TLC enumerates the cases, decides the invariants, publishes
+    phase = {}
     printed = run_tlc(P["cfgs"], cov)
+    phase["tlc"] = round(time.time() - t0, 1)
     expr_all, seen = [], set()
     for c in printed:
         if c.get("mode") in ("expr", "lit"):
@@ -369,7 +387,8 @@ def run(tier, seed):
         strata.setdefault(stratum(c), []).append(c)
     chosen = []
     keys = sorted(strata, key=repr)
-    quota = max(1, P["n_expr"] // max(1, len(keys)))
+    n_expr = max(P["n_expr"].values())
+    quota = max(1, n_expr // max(1, len(keys)))
     left = []
     for k in keys:
         lst = strata[k]
@@ -377,7 +396,7 @@ def run(tier, seed):
         chosen += lst[:quota]
         left += lst[quota:]
     rng.shuffle(left)
-    chosen += left[:max(0, P["n_expr"] - len(chosen))]
+    chosen += left[:max(0, n_expr - len(chosen))]
     sig_chosen = core.sample(sig_all, P["n_sig"], rng)
     # the cdef-class / module-level cases without nesting can also be built without binding (clinic format)
     for i, c in enumerate(sig_chosen):
@@ -387,22 +406,23 @@ def run(tier, seed):
     wd = core.subdir("c25")
     mods = []
     fns = layout_expr_functions(chosen, P["per_fn"], rng)
-    per_mod = 450
+    per_mod = P["per_mod"]
     expr_mods = []
-    for fmt in P["fmts_expr"]:
-        for mi in range(0, len(fns), per_mod):
+    for fmt in sorted(P["n_expr"], reverse=True):
+        ffns = fns[:(P["n_expr"][fmt] + P["per_fn"] - 1) // P["per_fn"]]
+        for mi in range(0, len(ffns), per_mod):
             g = BlockGen()
-            for fn in fns[mi:mi + per_mod]:
+            for fn in ffns[mi:mi + per_mod]:
                 render_expr_fn(g, fn)
             m = Mod("c25e_%s%d" % (fmt, mi // per_mod), g, {"binding": True, "embedsignature": True,
                                                            "embedsignature.format": fmt}, ("expr", fmt))
-            m.fns = fns[mi:mi + per_mod]
+            m.fns = ffns[mi:mi + per_mod]
             mods.append(m)
             expr_mods.append(m)
     sig_mods = []
     SIGCFG = [("python", {"binding": True, "embedsignature": True, "embedsignature.format": "python"}, None),
-              ("c", {"binding": True, "embedsignature": True, "embedsignature.format": "c"}, None),
-              ("plain", {"binding": True, "embedsignature": False}, None),
+              ("c", {"binding": True, "embedsignature": True, "embedsignature.format": "c"}, lambda c: c["cid"] % 2 == 0),
+              ("plain", {"binding": True, "embedsignature": False}, lambda c: c["cid"] % 3 == 0),
               ("clinic", {"binding": False, "embedsignature": True, "embedsignature.format": "clinic"},
                lambda c: c["path"] in ([], ["ccls"]) and c["leaf"] == "def")]
     for tag, dirs, flt in SIGCFG:
@@ -416,7 +436,9 @@ def run(tier, seed):
         mods.append(m)
         sig_mods.append(m)
 
+    phase["prepare"] = round(time.time() - t0 - sum(phase.values()), 1)
     build_modules(mods, os.path.join(wd, "build"), jobs, rep)
+    phase["build"] = round(time.time() - t0 - sum(phase.values()), 1)
 
     # ---- P: the CPython twins (one per distinct source)
     pydir = os.path.join(wd, "py")
@@ -443,6 +465,7 @@ def run(tier, seed):
             continue
         m.c_recs = observe(m.name, b.dir, m.gen.acc, True, os.path.join(wd, "obs"))
 
+    phase["observe"] = round(time.time() - t0 - sum(phase.values()), 1)
     # ---- expression cases
     for m in expr_mods:
         if not m.build.ok:
@@ -545,9 +568,13 @@ def run(tier, seed):
                 continue
             # C vs S: names
             for at, wv in (("__name__", meta["leafname"]), ("__qualname__", meta["qualname"]), ("__module__", m.name)):
+                if tag == "clinic" and at == "__module__":
+                    continue      # binding=False: builtin method descriptors have no __module__ (outside the property)
                 n_eval += 1
                 if cr.get(at) != wv:
                     rep.disagree(dict(desc, attr=at), "name-mismatch", {"case": c, "want": wv, "got": cr.get(at)})
+            if tag == "clinic" and want and want[0][0] == "self":
+                want[0][1] = "po"     # CPython reports `$self` of a builtin's text signature as positional-only
             # inspect.signature
             n_eval += 1
             d = cmp_sig_lists(want, cr.get("sig"))
@@ -569,6 +596,10 @@ def run(tier, seed):
                     rep.disagree(desc, "doc-mismatch", {"case": c, "want": clean, "got": doc})
                 sigtext = ("m" + sigline) if isinstance(sigline, str) else None
             else:
+                if doc == srcdoc:
+                    # nothing was embedded at all
+                    rep.disagree(desc, "embed-missing", {"case": c, "doc": doc})
+                    continue
                 sigline, rest = split_doc(doc)
                 if sigline is None or rest != ("\n\n" + clean if clean else ""):
                     rep.disagree(desc, "doc-mismatch", {"case": c, "want_tail": clean, "got": doc})
@@ -627,6 +658,7 @@ def run(tier, seed):
         "impl_model_vs_real": {"hazard_predicted_but_text_faithful": len(stale.get("predicted", [])),
                                "text_wrong_but_not_predicted": len(stale.get("unpredicted", [])),
                                "examples": {k: v[:5] for k, v in stale.items()}},
+        "phase_s": phase,
         "functions_rejected_by_compiler": n_compile_rejects, "compiler_rejections": rejects[:6],
         "modules": [{"name": m.name, "ok": bool(m.build and m.build.ok), "functions": len(m.gen.acc)} for m in mods],
         "rule": "replayed = seeded sample over the strata (root-cause tags, model hazard, foldable, top constructor, number of operator "
